@@ -183,10 +183,10 @@ theorem created_with_two (c : Ctx) (a : Actor) (peer : Uid) (mode : String) (pri
   all_goals (try (obtain ⟨_, rfl⟩ := h; simp at hc))
 
 /-- the subscriptions initTopicP2P writes have p2p modes, given that the one it found (if any) has -/
-theorem plan_modes (a : Actor) (peer : Uid) (u1 u2 : User) (subs : List SubRow) (mode : String) (priv : PrivArg) (userArg : Uid)
+theorem plan_modes (a : Actor) (peer : Uid) (u1 u2 : User) (subs : List SubRow) (mode : String) (priv : PrivArg) (userArg : Uid) (pg : Option Mode)
     (hs : ∀ s ∈ subs, P2PMode s.want ∧ P2PMode s.given) :
-    P2PMode (p2pPlan a peer u1 u2 subs mode priv userArg).sub1.want ∧ P2PMode (p2pPlan a peer u1 u2 subs mode priv userArg).sub1.given ∧
-    P2PMode (p2pPlan a peer u1 u2 subs mode priv userArg).sub2.want ∧ P2PMode (p2pPlan a peer u1 u2 subs mode priv userArg).sub2.given := by
+    P2PMode (p2pPlan a peer u1 u2 subs mode priv userArg pg).sub1.want ∧ P2PMode (p2pPlan a peer u1 u2 subs mode priv userArg pg).sub1.given ∧
+    P2PMode (p2pPlan a peer u1 u2 subs mode priv userArg pg).sub2.want ∧ P2PMode (p2pPlan a peer u1 u2 subs mode priv userArg pg).sub2.given := by
   have h1 : ∀ s, (if subs.length = 1 then subs.find? (·.user = a.uid) else none) = some s → P2PMode s.want ∧ P2PMode s.given := by
     intro s h; split at h
     · exact hs s (List.mem_of_find?_eq_some h)
@@ -207,6 +207,17 @@ theorem plan_modes (a : Actor) (peer : Uid) (u1 u2 : User) (subs : List SubRow) 
     exact ⟨(h1 s1 rfl).1, (h1 s1 rfl).2, p2pSan_mode _, p2pSan_mode _⟩
   · rename_i s1 s2
     exact ⟨(h1 s1 rfl).1, (h1 s1 rfl).2, (h2 s2 rfl).1, (h2 s2 rfl).2⟩
+
+/-- a participant who deleted the subscription and subscribes again when the topic is not loaded gets the previous grant
+(masked), not the other account's default: a restriction set by the other participant sticks -/
+theorem reload_restores_grant (a : Actor) (peer : Uid) (u1 u2 : User) (subs : List SubRow) (mode : String) (priv : PrivArg) (userArg : Uid)
+    (g : Mode) (h : (if subs.length = 1 then subs.find? (·.user = a.uid) else none) = none) :
+    (p2pPlan a peer u1 u2 subs mode priv userArg (some g)).sub1.given = p2pSan g ∧
+    (p2pPlan a peer u1 u2 subs mode priv userArg (some g)).newsub = true := by
+  unfold p2pPlan
+  dsimp only
+  rw [h]
+  exact ⟨rfl, rfl⟩
 
 /-! ### the set of participants never changes once the topic is cached -/
 
